@@ -213,6 +213,11 @@ func (w *World) InModule(fn *ssa.Function) bool {
 	return p == modPath || strings.HasPrefix(p, modPath+"/")
 }
 
+// InModulePkg reports whether the package path belongs to the rigo-go module.
+func (w *World) InModulePkg(p string) bool {
+	return p == modPath || strings.HasPrefix(p, modPath+"/")
+}
+
 func (w *World) FuncPkgPath(fn *ssa.Function) string {
 	if fn == nil {
 		return ""
